@@ -108,3 +108,5 @@ func FuzzC07Frames(f *testing.F)     { fuzzC07(f, "frames", frameSeeds()) }
 func FuzzC07DialReply(f *testing.F)  { fuzzC07(f, "dialreply", replySeeds()) }
 func FuzzC07ProxyReply(f *testing.F) { fuzzC07(f, "proxyreply", replySeeds()) }
 func FuzzC07Headers(f *testing.F)    { fuzzC07(f, "headers", headerSeeds()) }
+
+func TestC10(t *testing.T) { RunProp(t, "C10", "writefaults", genWFaultCase, checkC10) }
